@@ -3,6 +3,7 @@ from props.util import *
 
 needs_release = False
 aux_big = True   # also run the auxiliary big-period family (periods 2500 / 4100, two ring wraps) through the bit-exact tie
+no_aux_clone = True   # the clone_from family is judged here
 rule = ("for each of the 22 indicators and each period in the tier's list (quick: 1..16, 31..33, 63, 64; thorough: 1..64 "
         "plus sampled up to 4096) one case of >= 3*period+3 feeding ops mixing ordinary values with injected NaN, +-inf, +-f64::MAX, "
         "subnormals, signed zeros and inconsistent bars, with reset / clone / serde / Display+Debug probes at random "
@@ -97,6 +98,12 @@ def gen_cases(ctx):
                     feeds = [("n", 0, x0 + d * i) for i in range(n_feed)]
                 cases.append(Case("%s_ramp_p%d_%s" % (ind, p, str(d).replace(".", "_").replace("-", "m")), [new_op(0, ind, pr)] + feeds, dump=(),
                                   meta={"ind": ind, "period": max(p, 1), "n_feed": n_feed}))
+    # Clone::clone_from into an existing instance with a larger / smaller / equal window (a ring shorter than the new period panics later,
+    # in next() or reset()): part of this property's own cases, so that a panic is reported with its input
+    for c_ in aux_clone_cases():
+        c_.cid = "cf_" + c_.cid
+        c_.meta = {"ind": c_.meta["ind"], "period": c_.meta["p"], "n_feed": 3 * c_.meta["p"] + 3}
+        cases.append(c_)
     return cases
 
 
